@@ -1704,8 +1704,14 @@ def inline_function_values(fn: ast.AST) -> int:
                 continue
             bound = {a.arg for a in ast.walk(v) if isinstance(a, ast.arg)}
             free = {n.id for n in ast.walk(v) if isinstance(n, ast.Name) and n.id not in bound}
-            if name in free or any(store_count.get(f, 0) > 1 or (f in params and store_count.get(f, 0) > 0) for f in free):
+            if name in free:
                 continue
+            unstable = {f for f in free if store_count.get(f, 0) > 1 or (f in params and store_count.get(f, 0) > 0)}
+            if unstable:
+                # rebound somewhere: fine if every read of the function value still sees the bindings its definition saw
+                lds = [n for n in names if n.id == name and isinstance(n.ctx, ast.Load)]
+                if len(sts) != 1 or not lds or not _same_definitions(fn, sts[0], lds, unstable):
+                    continue
             if any(f in defs and (isinstance(defs[f][0].value, ast.Lambda) or (isinstance(defs[f][0].value, ast.Call) and isinstance(defs[f][0].value.func, ast.Name) and defs[f][0].value.func.id == "partial")) for f in free):
                 continue        # built from another function value that is written out first (next round)
             loads = [n for n in names if n.id == name and isinstance(n.ctx, ast.Load)]
